@@ -276,16 +276,21 @@ def run(chk):
     for f in db.all_functions([CPP]):
         if f.cls != TSG or f.name.rsplit("::", 1)[-1] not in ("differentiate", "getDifferentiationWeights"):
             continue
+        # the diagonal of the transform Jacobian: the local initialised from diffCanonicalTransform()
+        jd = {v["did"]: v.get("name") for v in f.locals().values() if "did" in v and any((callee(q) or "").endswith("::diffCanonicalTransform") for c in v.get("c", []) if isinstance(c, dict) for q in walk(c))}
+        if not jd:
+            continue
+        jname = next(iter(jd.values()))
         for n in walk(f.body):
             compound = n.get("k") == "CompoundAssignOperator" and n.get("op") == "*="
             plain = n.get("k") == "BinaryOperator" and n.get("op") == "="
             if compound or plain:
                 rhs = strip(n["c"][1])
-                if "jacobian_g_diag[" in txt(rhs) and (compound or (rhs.get("k") == "BinaryOperator" and rhs.get("op") == "*")):
+                if any(q.get("k") == "DeclRefExpr" and q.get("did") in jd for q in walk(rhs)) and (compound or (rhs.get("k") == "BinaryOperator" and rhs.get("op") == "*")):
                     nch += 1
                     chk.saw(f)
                     lhs = strip(n["c"][0])
-                    fac = [q for q in walk(rhs) if q.get("k") in ("CXXOperatorCallExpr",) and q.get("op") == "[]" and txt(strip(q["c"][1])) == "jacobian_g_diag"]
+                    fac = [q for q in walk(rhs) if q.get("k") in ("CXXOperatorCallExpr",) and q.get("op") == "[]" and var_of(q["c"][1]) in jd]
                     J = txt(strip(fac[0]["c"][2])) if fac else None
                     li = lhs["c"][1] if lhs.get("k") == "ArraySubscriptExpr" else None
                     form = index_form(li) if li is not None else None
